@@ -11,7 +11,25 @@ Cases (all built from the given random.Random):
   zero       G(0) with the Python int 0 and the float 0.0
   relations  S·S=Z, T·T=S, SX·SX=X, H·Z·H=X, CNOT/CZ = diag(1, X/Z), SWAP exchanges qubits, Delay = 1
   malformed  wrong number of parameters (TypeError at .matrix) / unknown gate name (KeyError)
+
+Round-3 strengthening (classes: shared mutable results / memoisation, history on long-lived objects, fast paths for
+special parameter shapes, two code paths that must agree):
+  gate       further modes, all answered by the model at the same circle point:  "spfloat" (sympy.Float), "exact"
+             (theta = 2*atan2(sh, ch) + 4*pi*wrap as an exact sympy number), "bound" (gate built on symbols or
+             expressions 2t, t+u, t/3, -t and then .bind()), "mixed" (some parameters symbols, the others floats; the
+             rest bound or substituted), "replace" (.replace_params), "lit" (literal zeros of eight different kinds);
+             angle shapes: tiny, next to pi, several turns of 4*pi
+  zero       every parametric gate at every kind of literal zero (int, float, -0.0, sympy Integer/Float, t-t, 2t
+             bound to 0, a+b bound to opposite numbers)
+  session    ONE history on long-lived objects: gate objects are built once and then read repeatedly
+             (.matrix, .dagger.matrix, num_qubits, is_hermitian), the matrices the caller got are edited in place
+             ("poke"), equal objects are rebuilt, siblings differing in one component are interleaved, symbolic gate
+             objects are bound several times, the group law and the fixed relations are evaluated at the end of the
+             history.  Every read is compared with the model and is subject to the property's sentences.
+  rawgate / rawpair   (oracle only: the model has no exact cos/sin of these)  Python ints, sympy Integers/Rationals,
+             dyadic floats as angles in radians; group law across different number types, e.g. G(3)*G(0.0) = G(3.0)
 """
+import copy
 import inspect
 import math
 from fractions import Fraction
@@ -23,11 +41,17 @@ PROP = "C02"
 TOL = 1e-9
 RULE = ("every one of the 27 gates; each parametric gate at 40 (thorough 400) random rational circle points per "
         "parameter + all axis points + the multiples of pi/2 (exact in Q(zeta8)), numerically, through real sympy "
-        "symbols and with exact sympy numbers; 10 one-parameter families at 20 (thorough 200) angle pairs; "
+        "symbols and with exact sympy numbers, + 20 (thorough 120) points in the representations sympy.Float / exact "
+        "2*atan2 / bound expressions / partially symbolic / replace_params, incl. tiny angles, angles next to pi and "
+        "several 4*pi turns; every kind of literal zero for every parametric gate; 10 one-parameter families at 20 "
+        "(thorough 200) angle pairs; ~150 (thorough ~600) sessions = histories on long-lived gate objects with "
+        "in-place edits of returned matrices, rebuilt equal objects, interleaved siblings, repeated binds, group law "
+        "and fixed relations at the end; oracle-only integer / rational / mixed-type angles; "
         "non-trivial: a parametric gate with at least one angle that is not a multiple of pi/2, an angle pair "
-        "with both angles off the axes, or the fixed-relation case; distinct = distinct canonical JSON of the case")
+        "with both angles off the axes, the fixed-relation case, a session with an edit, a group-law step or two "
+        "objects; distinct = distinct canonical JSON of the case")
 TRUSTED = [
-    "sympy numeric evaluation of cos/sin/exp/sqrt, Matrix arithmetic, Matrix.adjoint (Dagger.matrix), evalf and "
+    "sympy numeric evaluation of cos/sin/exp/sqrt/atan2, Matrix arithmetic, Matrix.adjoint (Dagger.matrix), evalf and "
     "subs; sympy.simplify is sound (u3_matrix) - theorem u3_is_rz_ry_rz proves the simplified closed form the model "
     "uses equals the unsimplified product, the correspondence compares it at every sampled point",
     "float rounding: entries of modulus <= 1 computed by sympy/numpy from theta = 2*atan2(sh, ch) agree with the "
@@ -36,20 +60,30 @@ TRUSTED = [
     "real_angle_add prove this representation turns the model formulas into the code's cos, sin, exp(i theta) and "
     "Ang.add into + on the reals; the laws of the constants are PROVED for C (kC_laws) and Q(zeta8) (cyc8_laws)",
     "harness/tables.py:gate_table (reads name, num_qubits, is_hermitian and the factory signature off the live objects)",
+    "the model is a pure function of (gate, parameters): a session (history) is answered read by read by the same "
+    "model function - that the implementation's answer may not depend on the history is exactly what is compared",
 ]
 ASSUMPTIONS = [
-    "parameters are Python int/float or sympy numbers/symbols; numpy scalars are outside the domain (sympy 1.9 "
-    "cannot sympify np.float64 under numpy 2 - environment limit recorded in DESIGN C02)",
+    "parameters are Python int/float or sympy numbers/symbols/expressions; numpy scalars are outside the domain "
+    "(sympy 1.9 cannot sympify np.float64 under numpy 2 - environment limit recorded in DESIGN C02)",
     "Delay's duration is not an angle: the model ignores it, the harness passes an arbitrary rational",
     "'flagged self-adjoint' is observed as is_hermitian == True or `.dagger is gate`",
+    "the property holds at every moment of a process: a caller editing a matrix it obtained from `.matrix` / "
+    "`.dagger.matrix` (its own object in the unchanged library) is inside the domain and may not change any gate",
 ]
 
 ONE_PARAM_GROUP = ["RX", "RY", "RZ", "RH", "PHASE", "CPHASE", "XX", "YY", "ZZ", "XY"]
+FIXED = [n for n, k in circ.BUILTIN_PARAMS.items() if k == 0]
+PARAMETRIC = [n for n, k in circ.BUILTIN_PARAMS.items() if k > 0 and n != "Delay"]
 AXIS = [[1, 0], [0, 1], [-1, 0], [0, -1]]
 _R = [0, "1/2", 0, "-1/2"]      # 1/sqrt(2) in Q(zeta8)
 _MR = [0, "-1/2", 0, "1/2"]
 # (cos, sin) of k*pi/4, k = 0..7, exact
 K8 = [[1, 0], [_R, _R], [0, 1], [_MR, _R], [-1, 0], [_MR, _MR], [0, -1], [_R, _MR]]
+LITS = ["int0", "float0", "negfloat0", "spint0", "spfloat0", "sub0", "bind0", "bindsum0"]
+EXPRS = ["t", "2t", "t+u", "t/3", "-t"]
+POKES = ["setitem", "setlast", "row_swap", "fill", "col_del", "row_op"]
+RELATION_GATES = ["S", "T", "SX", "X", "Z", "H", "CNOT", "CZ", "SWAP"]
 _SYM_CACHE = {}
 
 
@@ -66,17 +100,250 @@ def _nparams(name):
     return circ.BUILTIN_PARAMS[name]
 
 
+def _pt(t):
+    """the point (cos, sin) of the half angle with tan(theta/4) = t"""
+    t = Fraction(t)
+    return [rat((1 - t * t) / (1 + t * t)), rat(2 * t / (1 + t * t))]
+
+
 def _rat_point(rng):
     t = Fraction(rng.randrange(-12, 13), rng.randrange(1, 13))
     if t == 0 or abs(t) == 1:
         t = Fraction(rng.randrange(2, 12), rng.randrange(13, 30))
-    return [rat((1 - t * t) / (1 + t * t)), rat(2 * t / (1 + t * t))]
+    return _pt(t)
+
+
+EDGE_N = [10 ** 2, 10 ** 3, 10 ** 4, 10 ** 5, 10 ** 6]
+
+
+def _edge_point(rng, n=None, tiny=None):
+    """tiny angles (|theta| ~ 4/n, t = +-1/n) and angles next to +-2*pi, i.e. half angle next to +-pi (t = +-n)"""
+    n = n or rng.choice(EDGE_N)
+    sg = rng.choice([-1, 1])
+    tiny = rng.random() < 0.5 if tiny is None else tiny
+    return _pt(Fraction(sg, n) if tiny else Fraction(sg * n))
+
+
+def _any_point(rng):
+    r = rng.random()
+    return _rat_point(rng) if r < 0.7 else (_edge_point(rng) if r < 0.85 else rng.choice(AXIS))
+
+
+def _pt_add(a, b):
+    ca, sa, cb, sb = unrat(a[0]), unrat(a[1]), unrat(b[0]), unrat(b[1])
+    return [rat(ca * cb - sa * sb), rat(sa * cb + ca * sb)]
 
 
 def _gate_case(name, angles, mode="float", **kw):
     c = {"kind": "gate", "gate": name, "angles": angles, "mode": mode}
     c.update(kw)
     return c
+
+
+def _rand_mode(rng, name, k):
+    if name == "Delay":
+        return rng.choice(["float", "spfloat", "exact", "bound"])
+    r = rng.random()
+    if r < 0.3:
+        return "float"
+    if r < 0.45:
+        return "spfloat"
+    if r < 0.6:
+        return "exact"
+    if r < 0.8:
+        return "bound"
+    if r < 0.9 or k < 2:
+        return "replace"
+    return "mixed"
+
+
+def _rand_spec(rng, name, mode=None):
+    """a random in-domain description of one gate object (same fields as a `gate` case)"""
+    k = _nparams(name)
+    if k == 0:
+        return {"gate": name, "angles": [], "mode": "float"}
+    mode = mode or _rand_mode(rng, name, k)
+    if name == "Delay":
+        spec = {"gate": name, "mode": mode,
+                "angles": [[rat(Fraction(rng.randrange(-99, 100), rng.randrange(1, 7))), 0]]}
+    else:
+        spec = {"gate": name, "angles": [_any_point(rng) for _ in range(k)], "mode": mode}
+        if rng.random() < 0.3 and not (name == "U3" and mode == "exact"):
+            spec["wrap"] = [rng.choice([0, 1, -1, 2, -3, 7, -20, 40]) for _ in range(k)]
+    if mode == "bound":
+        spec["expr"] = [rng.choice(EXPRS) for _ in range(k)]
+        r = rng.random()
+        if r < 0.3:
+            spec["bind_steps"] = 2
+        elif r < 0.6:
+            spec["rebind"] = True
+    if mode == "mixed":
+        mask = [rng.random() < 0.5 for _ in range(k)]
+        if all(mask) or not any(mask):
+            mask[rng.randrange(k)] = not mask[0]
+        spec["mask"] = mask
+        spec["via"] = rng.choice(["bind", "subs"])
+    return spec
+
+
+def _same_shape_gates(name):
+    return [n for n in PARAMETRIC if n != name and _nparams(n) == _nparams(name)
+            and circ.BUILTIN_QUBITS[n] == circ.BUILTIN_QUBITS[name]]
+
+
+def _sibling(rng, spec):
+    """a description that differs from `spec` in exactly one component"""
+    s = copy.deepcopy(spec)
+    k = len(s["angles"])
+    i = rng.randrange(k)
+    kinds = ["neg", "shift", "wrap", "halfturn", "mode"]
+    if k >= 2:
+        kinds += ["swap", "swap"]
+    if _same_shape_gates(s["gate"]):
+        kinds.append("othergate")
+    kind = rng.choice(kinds)
+    c, sn = unrat(s["angles"][i][0]), unrat(s["angles"][i][1])
+    if kind == "neg":
+        s["angles"][i] = [rat(c), rat(-sn)]
+    elif kind == "halfturn":
+        s["angles"][i] = [rat(-c), rat(-sn)]
+    elif kind == "shift":
+        t = (sn / (1 + c)) if c != -1 else Fraction(10 ** 5)
+        s["angles"][i] = _pt(t + Fraction(1, 10 ** 5))
+    elif kind == "wrap":
+        w = list(s.get("wrap") or [0] * k)
+        w[i] += rng.choice([-1, 1])
+        s["wrap"] = w
+    elif kind == "swap":
+        j = (i + 1) % k
+        for key in ("angles", "wrap", "expr", "mask"):
+            if s.get(key):
+                s[key][i], s[key][j] = s[key][j], s[key][i]
+    elif kind == "othergate":
+        s["gate"] = rng.choice(_same_shape_gates(s["gate"]))
+    elif kind == "mode":
+        s["mode"] = "spfloat" if s["mode"] != "spfloat" else "float"
+        for key in ("expr", "bind_steps", "mask", "via"):
+            s.pop(key, None)
+    if s.get("mode") == "exact" and s["gate"] == "U3":
+        s.pop("wrap", None)
+    return s
+
+
+def _S(objs, steps):
+    return {"kind": "session", "objs": objs, "steps": steps}
+
+
+def _sessions(rng, big):
+    out = []
+    for _rep in range(4 if big else 1):
+        for name in circ.BUILTIN_PARAMS:
+            k = _nparams(name)
+            fixed_like = k == 0 or name == "Delay"
+            # A: the caller edits the matrix it got from .matrix, then asks again (same object, rebuilt equal object)
+            for how in ("setitem", rng.choice(POKES[1:])):
+                objs = [_rand_spec(rng, name)]
+                steps = [["read", 0], ["poke", 0, "matrix", how], ["read", 0], ["rebuild", 0], ["read", 0]]
+                if name in ("I", "Delay"):
+                    objs.append(_rand_spec(rng, "Delay" if name == "I" else "I"))
+                    steps.append(["read", 1])
+                if fixed_like:
+                    steps.append(["relations"])
+                out.append(_S(objs, steps))
+            # B: the same with the matrix of .dagger
+            objs = [_rand_spec(rng, name)]
+            steps = [["read", 0], ["poke", 0, "dagger", rng.choice(["setitem", "setitem"] + POKES)], ["read", 0]]
+            if fixed_like:
+                steps.append(["relations"])
+            out.append(_S(objs, steps))
+            if k == 0:
+                continue
+            # C: two siblings on interleaved reads, the second one rebuilt in between
+            if name != "Delay":
+                for _ in range(1 if name == "U3" else 2):
+                    a = _rand_spec(rng, name, mode=rng.choice(["float", "float", "spfloat", "bound", "replace"]))
+                    a["angles"] = [_rat_point(rng) if rng.random() < 0.8 else _edge_point(rng) for _ in range(k)]
+                    out.append(_S([a, _sibling(rng, a)],
+                                  [["read", 0], ["read", 1], ["read", 0], ["rebuild", 1], ["read", 1]]))
+            # E: one long-lived symbolic gate object bound several times
+            p1 = [_any_point(rng) for _ in range(k)] if name != "Delay" else _rand_spec(rng, name)["angles"]
+            b1 = {"gate": name, "angles": p1, "mode": "bindof", "of": 0}
+            b2 = _sibling(rng, dict(b1, mode="float")) if name != "Delay" else dict(b1, angles=[[7, 0]])
+            b2.update(gate=name, mode="bindof", of=0)
+            s0 = {"gate": name, "mode": "symobj",
+                  "angles": [_rat_point(rng) for _ in range(k)] if name != "Delay" else [[3, 0]]}
+            objs = [s0, b1, b2]
+            steps = [["read", 0], ["read", 1], ["read", 2], ["poke", 1, "matrix", rng.choice(POKES)],
+                     ["rebuild", 1], ["read", 1], ["read", 0]]
+            if name != "U3":  # equal names, different symbols: a second symbolic object and a gate bound from it
+                objs += [dict(s0, assume="plain", angles=b1["angles"]),
+                         {"gate": name, "angles": s0["angles"], "mode": "bindof", "of": 3, "assume": "plain"}]
+                steps += [["read", 3], ["read", 4], ["read", 0]]
+            out.append(_S(objs, steps))
+        # D: group law at the end of a history
+        for name in ONE_PARAM_GROUP:
+            for variant in (0, 1):
+                pa, pb = [_rat_point(rng) if rng.random() < 0.85 else _edge_point(rng) for _ in range(2)]
+                if variant == 0 and rng.random() < 0.5:
+                    pb = _edge_point(rng, tiny=True)
+                ma, mb = [rng.choice(["float", "spfloat", "replace", "bound"]) for _ in range(2)]
+                objs = [{"gate": name, "angles": [pa], "mode": ma}, {"gate": name, "angles": [pb], "mode": mb},
+                        {"gate": name, "angles": [_pt_add(pa, pb)], "sum": [pa, pb], "mode": "float"},
+                        {"gate": name, "angles": [[1, 0]], "mode": "lit", "lit": [rng.choice(LITS)]}]
+                for o in objs[:2]:
+                    if o["mode"] == "bound":
+                        o["expr"] = [rng.choice(EXPRS)]
+                if variant == 0:
+                    steps = [["read", 2], ["read", 0], ["read", 1], ["law", 0, 1, 2], ["read", 3], ["law", 3, 1, 1]]
+                else:
+                    steps = [["read", 0], ["poke", 0, "matrix", "setitem"], ["read", 1],
+                             ["poke", 1, "dagger", rng.choice(POKES)], ["read", 2], ["poke", 2, "matrix", rng.choice(POKES)],
+                             ["law", 0, 1, 2], ["read", 3], ["poke", 3, "matrix", "setitem"], ["read", 3],
+                             ["law", 3, 0, 0], ["law", 1, 3, 1]]
+                out.append(_S(objs, steps))
+            # the three gates of the law are bound from ONE long-lived symbolic gate object
+            pa, pb = _rat_point(rng), _any_point(rng)
+            objs = [{"gate": name, "angles": [_rat_point(rng)], "mode": "symobj"},
+                    {"gate": name, "angles": [pa], "mode": "bindof", "of": 0},
+                    {"gate": name, "angles": [pb], "mode": "bindof", "of": 0},
+                    {"gate": name, "angles": [_pt_add(pa, pb)], "sum": [pa, pb], "mode": "bindof", "of": 0}]
+            out.append(_S(objs, [["read", 1], ["read", 2], ["read", 3], ["law", 1, 2, 3], ["read", 0], ["rebuild", 1],
+                                 ["law", 1, 2, 3]]))
+        # F: longer random histories over several gates
+        for _ in range(6):
+            names = [rng.choice(FIXED + ["Delay"] + [n for n in PARAMETRIC if n != "U3"]) for _ in range(5)]
+            objs = [_rand_spec(rng, n) for n in names]
+            steps, seen = [], []
+            for _ in range(12):
+                r = rng.random()
+                if r < 0.55 or not seen:
+                    i = rng.randrange(len(objs))
+                    steps.append(["read", i])
+                    seen.append(i)
+                elif r < 0.8:
+                    steps.append(["poke", rng.choice(seen), rng.choice(["matrix", "dagger"]), rng.choice(POKES)])
+                elif r < 0.9:
+                    i = rng.choice(seen)
+                    steps.append(["rebuild", i])
+                    steps.append(["read", i])
+                else:
+                    steps.append(["relations"])
+            for i in sorted(set(seen)):
+                steps.append(["read", i])
+            steps.append(["relations"])
+            out.append(_S(objs, steps))
+    return out
+
+
+def _raw_value(rng, zero=False, t=None):
+    t = t or rng.choice(["int", "spint", "rat", "float", "spfloat"])
+    if zero:
+        return [t, 0]
+    if t in ("int", "spint"):
+        return [t, rng.choice([rng.randrange(-12, 13), rng.randrange(-12, 13), 100, -1000, 25])]
+    if t == "rat":
+        return [t, rat(Fraction(rng.randrange(-40, 41), rng.randrange(1, 12)))]
+    return [t, rat(Fraction(rng.randrange(-64, 65), 8))]
 
 
 def corpus():
@@ -91,6 +358,23 @@ def corpus():
         {"kind": "pair", "gate": "RH", "a": ["3/5", "4/5"], "b": ["5/13", "12/13"]},
         {"kind": "malformed", "gate": "RX", "nargs": 0},
         {"kind": "malformed", "gate": "FOO", "nargs": 0},
+        # round 3
+        _gate_case("RZ", [["-3/5", "4/5"]], mode="exact", wrap=[2]),
+        _gate_case("MS", [["3/5", "4/5"], ["5/13", "-12/13"]], mode="bound", expr=["2t", "t+u"], bind_steps=2),
+        _gate_case("U3", [["3/5", "4/5"], [0, 1], ["-4/5", "3/5"]], mode="mixed", mask=[True, False, True], via="subs"),
+        {"kind": "zero", "gate": "XX", "lit": ["spint0"]},
+        {"kind": "zero", "gate": "CPHASE", "lit": ["bindsum0"]},
+        {"kind": "rawpair", "gate": "XX", "a": ["int", 3], "b": ["float", 0]},
+        {"kind": "rawgate", "gate": "U3", "raw": [["int", 1], ["rat", "-2/7"], ["spint", 30]]},
+        _S([{"gate": "I", "angles": [], "mode": "float"}, {"gate": "Delay", "angles": [["5/2", 0]], "mode": "float"}],
+           [["read", 0], ["poke", 0, "matrix", "setitem"], ["read", 0], ["read", 1], ["relations"]]),
+        _S([{"gate": "H", "angles": [], "mode": "float"}],
+           [["read", 0], ["poke", 0, "dagger", "setitem"], ["read", 0], ["relations"]]),
+        _S([{"gate": "RY", "angles": [["3/5", "4/5"]], "mode": "float"},
+            {"gate": "RY", "angles": [["5/13", "12/13"]], "mode": "spfloat"},
+            {"gate": "RY", "angles": [_pt_add(["3/5", "4/5"], ["5/13", "12/13"])], "mode": "float",
+             "sum": [["3/5", "4/5"], ["5/13", "12/13"]]}],
+           [["read", 0], ["poke", 0, "matrix", "setitem"], ["read", 1], ["read", 2], ["rebuild", 0], ["law", 0, 1, 2]]),
     ]
 
 
@@ -99,6 +383,7 @@ def generate(rng, tier):
     n_float = 400 if big else 40
     n_sym = 40 if big else 6
     n_pair = 200 if big else 20
+    n_repr = 120 if big else 20
     cases = [{"kind": "table"},
              {"kind": "relations", "durations": [rat(Fraction(rng.randrange(-50, 50), rng.randrange(1, 9))) for _ in range(3)]}]
     names = list(circ.BUILTIN_PARAMS)
@@ -110,6 +395,8 @@ def generate(rng, tier):
         if name == "Delay":
             for _ in range(6 if not big else 40):
                 cases.append(_gate_case(name, [[rat(Fraction(rng.randrange(-99, 100), rng.randrange(1, 7))), 0]]))
+            for _ in range(8 if not big else 40):
+                cases.append(dict(_rand_spec(rng, name), kind="gate"))
             continue
         # random rational circle points, numeric
         for _ in range(n_float):
@@ -132,14 +419,64 @@ def generate(rng, tier):
         for ks in k8s:
             mode = rng.choice(["float", "sympy"]) if k > 1 else None
             for m in ([mode] if mode else ["float", "sympy"]):
-                cases.append(_gate_case(name, [K8[i] for i in ks], mode=m, k8=ks))
+                c = _gate_case(name, [K8[i] for i in ks], mode=m, k8=ks)
+                if rng.random() < 0.25:
+                    c["wrap"] = [rng.choice([-2, -1, 1, 3]) for _ in range(k)]
+                cases.append(c)
+        # other representations of a real parameter (sympy.Float, exact sympy number, bound expression, partially
+        # symbolic, replace_params) and other shapes (tiny, next to pi, many turns)
+        for j in range(n_repr // 3 if name == "U3" else n_repr):
+            modes = ["spfloat", "exact", "bound", "replace", "float"] + (["mixed", "mixed"] if k >= 2 else [])
+            cases.append(dict(_rand_spec(rng, name, mode=modes[j % len(modes)]), kind="gate"))
+        for n, tiny in ([(rng.choice(EDGE_N), t) for t in (True, False, True, False)] if name == "U3" else
+                        [(n, t) for n in EDGE_N for t in (True, False)]):
+            cases.append(_gate_case(name, [_edge_point(rng, n, tiny) if i == 0 else _edge_point(rng) for i in range(k)]))
+        # repeated equal elements: the same value / the very same symbol in every parameter slot
+        if k >= 2:
+            for m in ["float", "samesym", "spfloat", "samesym"] * (3 if big else 1):
+                cases.append(_gate_case(name, [_rat_point(rng)] * k, mode=m))
     for name in ONE_PARAM_GROUP:
         for _ in range(n_pair):
             a = _rat_point(rng) if rng.random() < 0.9 else rng.choice(AXIS)
             b = _rat_point(rng) if rng.random() < 0.9 else rng.choice(AXIS)
             cases.append({"kind": "pair", "gate": name, "a": a, "b": b})
-        cases.append({"kind": "zero", "gate": name, "zero": "int"})
-        cases.append({"kind": "zero", "gate": name, "zero": "float"})
+        # the same law with each angle in its own representation (float, sympy.Float, exact sympy number), tiny
+        # angles, several turns; a + b is formed by Python / sympy
+        for _ in range(n_pair // 2):
+            c = {"kind": "pair", "gate": name}
+            for x in ("a", "b"):
+                m = rng.choice(["float", "spfloat", "exact", "sympy"])
+                c["m" + x] = m
+                if m == "sympy":
+                    c["k" + x] = rng.randrange(8)
+                    c[x] = K8[c["k" + x]]
+                else:
+                    c[x] = _any_point(rng)
+                if rng.random() < 0.3:
+                    c["w" + x] = rng.choice([1, -1, 2, -5])
+            cases.append(c)
+        # a tiny angle of every magnitude / an angle next to a full turn, on either side (G(a+b) is then built right
+        # after its near-duplicate G(b) or G(a))
+        for n in EDGE_N:
+            for tiny in (True, False):
+                pq = [_rat_point(rng), _edge_point(rng, n, tiny)]
+                if rng.random() < 0.5:
+                    pq.reverse()
+                cases.append({"kind": "pair", "gate": name, "a": pq[0], "b": pq[1]})
+        # exact multiples of pi/2 (sympy numbers): every multiple on one of the sides, sums that are whole turns
+        kk = [(ka, rng.randrange(-8, 9)) if rng.random() < 0.5 else (rng.randrange(-8, 9), ka) for ka in range(8)]
+        kk += [(ka, t - ka) for t in (0, 4, 8, -4, 12, 16) for ka in [rng.randrange(-8, 9)]]
+        for ka, kb in kk:
+            cases.append({"kind": "pair", "gate": name, "ma": "sympy", "mb": "sympy", "ka": ka, "kb": kb,
+                          "a": K8[ka % 8], "b": K8[kb % 8]})
+    # every kind of literal zero for every parametric gate
+    for name in PARAMETRIC + ["Delay"]:
+        k = _nparams(name)
+        for lit in LITS:
+            cases.append({"kind": "zero", "gate": name, "lit": [lit] * k})
+        if k >= 2:
+            for _ in range(4):
+                cases.append({"kind": "zero", "gate": name, "lit": [rng.choice(LITS) for _ in range(k)]})
     # malformed stream
     for name in names:
         k = _nparams(name)
@@ -149,6 +486,29 @@ def generate(rng, tier):
             cases.append({"kind": "malformed", "gate": name, "nargs": n})
     for bad in ["FOO", "rx", "CNOT2", "", "Rx"]:
         cases.append({"kind": "malformed", "gate": bad, "nargs": rng.randrange(0, 3)})
+    # histories on long-lived objects
+    cases.extend(_sessions(rng, big))
+    # oracle-only: angles in radians that are ints / sympy Integers / Rationals / dyadic floats
+    for name in PARAMETRIC + ["Delay"]:
+        for _ in range((3 if name == "U3" else 6) * (4 if big else 1)):
+            cases.append({"kind": "rawgate", "gate": name, "raw": [_raw_value(rng) for _ in range(_nparams(name))]})
+    for name in ONE_PARAM_GROUP:
+        for _rep in range(5 if big else 1):
+            # Python ints on both sides (both odd, mixed parity, negative); every number type against a zero of
+            # another type ( G(3)*G(0.0) = G(3.0) ties the int path to the float path ); random types
+            odd = lambda: 2 * rng.randrange(-6, 6) + 1  # noqa: E731
+            for a, b in [(odd(), odd()), (odd(), odd()), (odd(), 2 * rng.randrange(-5, 6)), (rng.randrange(-12, 13), odd()),
+                         (rng.choice([25, 100, -1000, 77]), odd()), (rng.randrange(-9, 10), rng.randrange(-9, 10))]:
+                t1, t2 = rng.choice([("int", "int"), ("int", "int"), ("int", "spint"), ("spint", "spint")])
+                cases.append({"kind": "rawpair", "gate": name, "a": [t1, a], "b": [t2, b]})
+            for t in ["int", "spint", "rat", "float", "spfloat"]:
+                a = _raw_value(rng, t=t)
+                if t in ("int", "spint") and a[1] % 2 == 0:
+                    a[1] += 1
+                cases.append({"kind": "rawpair", "gate": name, "a": a,
+                              "b": [rng.choice([x for x in ["int", "spint", "rat", "float", "spfloat"] if x != t]), 0]})
+            for _ in range(6):
+                cases.append({"kind": "rawpair", "gate": name, "a": _raw_value(rng), "b": _raw_value(rng)})
     return cases
 
 
@@ -162,6 +522,12 @@ def nontrivial(c):
         return c["gate"] != "Delay" and any(not _on_axis(a) for a in c["angles"])
     if k == "pair":
         return not _on_axis(c["a"]) and not _on_axis(c["b"])
+    if k == "session":
+        return len(c["objs"]) >= 2 or any(st[0] in ("poke", "law") for st in c["steps"])
+    if k == "rawgate":
+        return any(v[1] != 0 for v in c["raw"])
+    if k == "rawpair":
+        return c["a"][1] != 0 and c["b"][1] != 0
     return k == "relations"
 
 
@@ -176,32 +542,268 @@ def _coord(x):
 
 def _theta(angle, wrap=0, k8=None):
     if k8 is not None:
-        return k8 * math.pi / 2
+        return k8 * math.pi / 2 + 4.0 * math.pi * wrap
     return 2.0 * math.atan2(_coord(angle[1]), _coord(angle[0])) + 4.0 * math.pi * wrap
 
 
 def _num(m):
     """sympy matrix with numeric entries -> nested [re, im] floats"""
     import numpy as np
+    if getattr(m, "free_symbols", None):
+        raise ValueError(f"the matrix still contains the symbols {sorted(map(str, m.free_symbols))} although every "
+                         f"parameter was given a real value")
     a = np.array(m.evalf().tolist(), dtype=complex)
+    if a.ndim != 2:
+        a = a.reshape(m.shape)
     return [[[float(z.real), float(z.imag)] for z in row] for row in a]
 
 
 def _np(m):
     import numpy as np
-    return np.array([[complex(e[0], e[1]) for e in row] for row in m])
+    a = np.array([[complex(e[0], e[1]) for e in row] for row in m])
+    return a if a.ndim == 2 else a.reshape((len(m), 0))
 
 
-def _describe(g):
+def _describe2(g, sub=None):
+    """everything the property observes of one gate object; also hands back the two matrix OBJECTS the library
+    returned (they belong to the caller, who may edit them)"""
+    m = g.matrix
     d = g.dagger
-    return {"m": _num(g.matrix), "nq": int(g.num_qubits), "herm": bool(g.is_hermitian),
-            "dagger_self": d is g, "dagger": _num(d.matrix)}
+    dm = d.matrix
+    ms, ds = (m.subs(sub, simultaneous=True), dm.subs(sub, simultaneous=True)) if sub else (m, dm)
+    return {"m": _num(ms), "nq": int(g.num_qubits), "herm": bool(g.is_hermitian),
+            "dagger_self": d is g, "dagger": _num(ds)}, m, dm
+
+
+def _describe(g, sub=None):
+    return _describe2(g, sub)[0]
 
 
 def _build(name, params):
     oqc, bg, _ = _lib()
     ref = bg.builtin_gate_by_name(name)
     return ref if _nparams(name) == 0 else ref(*params)
+
+
+def _syms(n, prefix="t", real=True):
+    import sympy
+    return list(sympy.symbols(f"{prefix}0:{n}", real=True) if real else sympy.symbols(f"{prefix}0:{n}"))
+
+
+def _sprat(x):
+    import sympy
+    f = unrat(x)
+    return sympy.Rational(f.numerator, f.denominator)
+
+
+def _thetas(spec):
+    """the real parameter values of a gate description: Python floats, or exact sympy numbers (modes sympy/exact)"""
+    import sympy
+    name, mode = spec["gate"], spec.get("mode", "float")
+    n = _nparams(name)
+    if name == "Delay":
+        d = unrat(spec["angles"][0][0])
+        return [sympy.Rational(d.numerator, d.denominator)] if mode in ("exact", "sympy") else [float(d)]
+    if "sum" in spec:
+        return [_theta(spec["sum"][0]) + _theta(spec["sum"][1])]
+    wraps = spec.get("wrap") or [0] * n
+    k8 = spec.get("k8") or [None] * n
+    if mode == "sympy":
+        return [sympy.pi * sympy.Rational(q, 2) + 4 * sympy.pi * w for q, w in zip(k8, wraps)]
+    if mode == "exact":
+        return [2 * sympy.atan2(_sprat(a[1]), _sprat(a[0])) + 4 * sympy.pi * w for a, w in zip(spec["angles"], wraps)]
+    return [_theta(a, w, q) for a, w, q in zip(spec["angles"], wraps, k8)]
+
+
+def _realise(spec, pool=None):
+    """build the gate object a description stands for -> (gate, substitution still to be applied to its matrices)"""
+    import sympy
+    name, mode = spec["gate"], spec.get("mode", "float")
+    n = _nparams(name)
+    if n == 0:
+        return _build(name, []), None
+    ts, us = _syms(n), _syms(n, "u")
+    if spec.get("assume") == "plain":  # same NAMES as the real symbols, different symbols
+        ts = _syms(n, real=False)
+    if mode == "lit":
+        params, bind = [], {}
+        for i, kind in enumerate(spec["lit"]):
+            if kind == "int0":
+                params.append(0)
+            elif kind == "float0":
+                params.append(0.0)
+            elif kind == "negfloat0":
+                params.append(-0.0)
+            elif kind == "spint0":
+                params.append(sympy.Integer(0))
+            elif kind == "spfloat0":
+                params.append(sympy.Float(0))
+            elif kind == "sub0":
+                params.append(ts[i] - ts[i])
+            elif kind == "bind0":
+                params.append(2 * ts[i])
+                bind[ts[i]] = 0
+            elif kind == "bindsum0":
+                params.append(ts[i] + us[i])
+                bind[ts[i]] = 0.25
+                bind[us[i]] = -0.25
+            else:
+                raise AssertionError("unknown literal " + kind)
+        g = _build(name, params)
+        return (g.bind(bind) if bind else g), None
+    th = _thetas(spec)
+    if mode in ("float", "sympy", "exact"):
+        return _build(name, th), None
+    if mode == "spfloat":
+        return _build(name, [sympy.Float(x) for x in th]), None
+    if mode == "replace":
+        return _build(name, [0.125 * (i + 1) for i in range(n)]).replace_params(tuple(th)), None
+    if mode == "bound":
+        params, binds = [], []
+        for i, (e, x) in enumerate(zip(spec["expr"], th)):
+            t, u = ts[i], us[i]
+            if e == "t":
+                params.append(t)
+                binds.append((t, x))
+            elif e == "2t":
+                params.append(2 * t)
+                binds.append((t, x / 2))
+            elif e == "t+u":
+                params.append(t + u)
+                binds += [(t, x - 0.25), (u, 0.25)]
+            elif e == "t/3":
+                params.append(t / 3)
+                binds.append((t, 3 * x))
+            elif e == "-t":
+                params.append(-t)
+                binds.append((t, -x))
+            else:
+                raise AssertionError("unknown expression " + e)
+        g = _build(name, params)
+        binds.append((sympy.Symbol("z9", real=True), 1.0))  # a symbol the gate does not contain
+        if spec.get("bind_steps") == 2:
+            h = (len(binds) + 1) // 2
+            return g.bind(dict(binds[:h])).bind(dict(binds[h:])), None
+        d = dict(binds)
+        if spec.get("rebind"):  # the caller's map is used for a first bind, then again
+            g.bind(d)
+        return g.bind(d), None
+    if mode == "mixed":
+        params = [ts[i] if mk else th[i] for i, mk in enumerate(spec["mask"])]
+        rest = {ts[i]: th[i] for i, mk in enumerate(spec["mask"]) if mk}
+        g = _build(name, params)
+        return (g.bind(rest), None) if spec.get("via") == "bind" else (g, rest)
+    if mode == "samesym":  # the SAME symbol in every parameter slot (all angles of the description are equal)
+        return _build(name, [ts[0]] * n), {ts[0]: th[0]}
+    if mode == "symobj":
+        return _build(name, ts), dict(zip(ts, th))
+    if mode == "bindof":
+        g0, _ = pool(spec["of"])
+        return g0.bind(dict(zip(ts, th))), None
+    raise AssertionError("unknown mode " + str(mode))
+
+
+def _poke(m, how):
+    """edit IN PLACE a matrix the caller obtained from the library; False if the object does not allow it"""
+    try:
+        r, c = m.shape
+        if how == "setitem":
+            m[0, 0] = 3
+        elif how == "setlast":
+            m[r - 1, c - 1] = -2
+        elif how == "row_swap":
+            m.row_swap(0, r - 1)
+        elif how == "fill":
+            m.fill(0)
+        elif how == "col_del":
+            m.col_del(0)
+        elif how == "row_op":
+            m.row_op(r - 1, lambda v, j: 2 * v + 1)
+        else:
+            raise AssertionError("unknown edit " + how)
+        return True
+    except AssertionError:
+        raise
+    except Exception:
+        return False
+
+
+def _read_relations(durations=()):
+    oqc, _, _ = _lib()
+    out = {nm: _num(getattr(oqc, nm).matrix) for nm in RELATION_GATES}
+    out["Delay"] = [_num(oqc.Delay(float(unrat(d))).matrix) for d in durations]
+    return out
+
+
+def _run_session(c):
+    objs, last, outs = {}, {}, []
+
+    def pool(i):
+        if i not in objs:
+            objs[i] = _realise(c["objs"][i], pool)
+        return objs[i]
+
+    for st in c["steps"]:
+        op = st[0]
+        try:
+            if op == "read":
+                g, sub = pool(st[1])
+                o, m, dm = _describe2(g, sub)
+                last[(st[1], "matrix")], last[(st[1], "dagger")] = m, dm
+            elif op == "poke":
+                o = {"poked": _poke(last[(st[1], st[2])], st[3])}
+            elif op == "rebuild":
+                objs.pop(st[1], None)
+                o = {}
+            elif op == "law":
+                o = {key: _num(pool(i)[0].matrix) for key, i in zip(("a", "b", "ab"), st[1:4])}
+            elif op == "relations":
+                o = _read_relations(["-3/2", 0, 11])
+            else:
+                raise AssertionError("unknown step")
+        except AssertionError:
+            raise
+        except Exception as e:  # a read that fails is an observation, the history goes on
+            o = {"exc": type(e).__name__, "msg": str(e)[:200]}
+        outs.append(o)
+    return {"steps": outs}
+
+
+def _raw(v):
+    import sympy
+    t, x = v
+    if t == "int":
+        return int(x)
+    if t == "spint":
+        return sympy.Integer(int(x))
+    if t == "rat":
+        return _sprat(x)
+    if t == "float":
+        return float(unrat(x))
+    if t == "spfloat":
+        return sympy.Float(float(unrat(x)))
+    raise AssertionError("unknown number type")
+
+
+def _pair_params(c):
+    """the two parameter objects of a group-law case, each in its own representation; the caller forms a + b"""
+    import sympy
+    out = []
+    for x in ("a", "b"):
+        mode = c.get("m" + x, "float")
+        spec = {"gate": c["gate"], "angles": [c[x]], "mode": "float" if mode == "spfloat" else mode,
+                "wrap": [c.get("w" + x, 0)]}
+        if "k" + x in c:
+            spec["k8"] = [c["k" + x]]
+        v = _thetas(spec)[0]
+        out.append(sympy.Float(v) if mode == "spfloat" else v)
+    return out
+
+
+def _zero_spec(c):
+    lit = c.get("lit") or [{"int": "int0", "float": "float0"}[c["zero"]]] * _nparams(c["gate"])
+    ang = [[0, 0]] if c["gate"] == "Delay" else [[1, 0]] * len(lit)
+    return {"gate": c["gate"], "mode": "lit", "lit": lit, "angles": ang}
 
 
 def run_impl(c):
@@ -223,19 +825,11 @@ def run_impl(c):
     if k == "gate":
         name = c["gate"]
         n = _nparams(name)
-        wraps = c.get("wrap") or [0] * n
-        k8 = c.get("k8") or [None] * n
-        if name == "Delay":
-            g = _build(name, [float(unrat(c["angles"][0][0]))])
-            return _describe(g)
-        thetas = [_theta(a, w, q) for a, w, q in zip(c["angles"], wraps, k8)]
-        if c["mode"] == "float":
-            g = _build(name, thetas)
-            return _describe(g)
-        if c["mode"] == "sympy":
-            g = _build(name, [sympy.pi * sympy.Rational(q, 2) for q in k8])
-            return _describe(g)
+        if c["mode"] != "symbolic" or name == "Delay":
+            g, sub = _realise(dict(c, mode="float") if c["mode"] == "symbolic" else c)
+            return _describe(g, sub)
         # symbolic: real symbols, then simultaneous substitution of the floats
+        thetas = _thetas(c)
         syms = sympy.symbols(f"t0:{n}", real=True)
         if name not in _SYM_CACHE:
             g = _build(name, list(syms))
@@ -245,17 +839,22 @@ def run_impl(c):
         out = {"m": _num(msym.subs(sub, simultaneous=True)), "nq": int(g.num_qubits), "herm": bool(g.is_hermitian),
                "dagger_self": g.dagger is g, "dagger": _num(dsym.subs(sub, simultaneous=True)), "free": free}
         return out
-    if k == "pair":
-        ta, tb = _theta(c["a"]), _theta(c["b"])
-        return {"a": _num(_build(c["gate"], [ta]).matrix), "b": _num(_build(c["gate"], [tb]).matrix),
-                "ab": _num(_build(c["gate"], [ta + tb]).matrix)}
     if k == "zero":
-        z = 0 if c["zero"] == "int" else 0.0
-        return {"m": _num(_build(c["gate"], [z]).matrix)}
+        return _describe(*_realise(_zero_spec(c)))
+    if k == "session":
+        return _run_session(c)
+    if k == "rawgate":
+        return _describe(_build(c["gate"], [_raw(v) for v in c["raw"]]))
+    if k == "rawpair":
+        a, b = _raw(c["a"]), _raw(c["b"])
+        return {"a": _num(_build(c["gate"], [a]).matrix), "b": _num(_build(c["gate"], [b]).matrix),
+                "ab": _num(_build(c["gate"], [a + b]).matrix)}
+    if k == "pair":
+        pa, pb = _pair_params(c)
+        return {"a": _num(_build(c["gate"], [pa]).matrix), "b": _num(_build(c["gate"], [pb]).matrix),
+                "ab": _num(_build(c["gate"], [pa + pb]).matrix)}
     if k == "relations":
-        out = {nm: _num(getattr(oqc, nm).matrix) for nm in ["S", "T", "SX", "X", "Z", "H", "CNOT", "CZ", "SWAP"]}
-        out["Delay"] = [_num(oqc.Delay(float(unrat(d))).matrix) for d in c["durations"]]
-        return out
+        return _read_relations(c["durations"])
     if k == "malformed":
         try:
             ref = bg.builtin_gate_by_name(c["gate"])
@@ -273,26 +872,89 @@ def run_impl(c):
 
 
 # ---------------------------------------------------------------------------------------------- model requests
+def _gate_request(spec):
+    angles = spec["angles"] if spec["gate"] != "Delay" else [[spec["angles"][0][0], 0]]
+    return ("gate", {"gate": spec["gate"], "angles": angles})
+
+
 def requests(c, out):
     k = c["kind"]
     if k == "table":
         return [("table", {})]
     if k == "gate":
-        angles = c["angles"] if c["gate"] != "Delay" else [[c["angles"][0][0], 0]]
-        return [("gate", {"gate": c["gate"], "angles": angles})]
+        return [_gate_request(c)]
     if k == "pair":
         return [("pair", {"gate": c["gate"], "a": c["a"], "b": c["b"]})]
     if k == "zero":
-        return [("gate", {"gate": c["gate"], "angles": [[1, 0]]})]
+        return [_gate_request(_zero_spec(c))]
     if k == "relations":
         return [("relations", {})]
     if k == "malformed":
         return [("gate", {"gate": c["gate"], "angles": [["3/5", "4/5"]] * c["nargs"]})]
-    return []
+    if k == "session":
+        rs = []
+        for st in c["steps"]:
+            if st[0] == "read":
+                rs.append(_gate_request(c["objs"][st[1]]))
+            elif st[0] == "law":
+                a, b = c["objs"][st[1]], c["objs"][st[2]]
+                rs.append(("pair", {"gate": a["gate"], "a": a["angles"][0], "b": b["angles"][0]}))
+            elif st[0] == "relations":
+                rs.append(("relations", {}))
+        return rs
+    return []  # rawgate / rawpair: oracle only
 
 
 def _close(impl, model_json):
     return circ.close(_np(impl), circ.model_matrix_to_numpy(model_json), TOL)
+
+
+def _label(spec):
+    extra = {k: v for k, v in spec.items() if k not in ("kind", "gate", "angles", "mode")}
+    return f"{spec['gate']}{spec.get('angles', '')} [{spec.get('mode', 'float')}{' ' + str(extra) if extra else ''}]"
+
+
+def _cmp_gate(spec, out, r):
+    name = spec["gate"]
+    if isinstance(r, dict) and "driver_error" in r:
+        return "driver error: " + r["driver_error"]
+    if "exc" in out:
+        return f"{_label(spec)}: implementation raised {out['exc']}: {out.get('msg')} where the model answers {str(r)[:120]}"
+    if isinstance(r["m"], str):
+        return f"model could not compute {name}: {r['m']}"
+    if not _close(out["m"], r["m"]):
+        return f"{_label(spec)}: matrix {out['m']} differs from the model"
+    if (out["nq"], out["herm"], out["dagger_self"]) != (r["nq"], r["herm"], r["dagger_self"]):
+        return (f"{name}: num_qubits/is_hermitian/dagger-is-self {out['nq'], out['herm'], out['dagger_self']} "
+                f"differ from the model {r['nq'], r['herm'], r['dagger_self']}")
+    if not _close(out["dagger"], r["dagger"]):
+        return f"{_label(spec)}: .dagger.matrix differs from the model"
+    if name != "Delay" and not r.get("unitary"):
+        return f"model self-test: {name}{spec['angles']} not exactly unitary in Q(zeta8)"
+    if r["herm"] and not r.get("selfadjoint"):
+        return f"model self-test: flagged {name} not exactly self-adjoint in Q(zeta8)"
+    return None
+
+
+def _cmp_pair(name, out, r):
+    if isinstance(r, dict) and "driver_error" in r:
+        return "driver error: " + r["driver_error"]
+    if "exc" in out:
+        return f"{name}: implementation raised {out['exc']}: {out.get('msg')}"
+    if isinstance(r, str):
+        return f"model: {r}"
+    if not r["equal"]:
+        return "model self-test: G(a)G(b) != G(a+b) exactly"
+    if not _close(out["ab"], r["ab"]):
+        return f"{name} at theta_a+theta_b differs from the model at Ang.add a b"
+    return None
+
+
+def _cmp_relations(r):
+    if isinstance(r, dict) and "driver_error" in r:
+        return "driver error: " + r["driver_error"]
+    bad = [kk for kk, v in r.items() if v is not True]
+    return f"model self-test: relations {bad} fail exactly" if bad else None
 
 
 def compare(c, out, resp):
@@ -309,35 +971,29 @@ def compare(c, out, resp):
         if any(a != n for a, n, *_ in out["rows"]):
             return "a built-in gate is bound to a name different from its .name"
     elif k == "gate":
-        if isinstance(r["m"], str):
-            return f"model could not compute {c['gate']}: {r['m']}"
-        if not _close(out["m"], r["m"]):
-            return f"{c['gate']}{c['angles']} [{c['mode']}]: matrix {out['m']} differs from the model"
-        if (out["nq"], out["herm"], out["dagger_self"]) != (r["nq"], r["herm"], r["dagger_self"]):
-            return (f"{c['gate']}: num_qubits/is_hermitian/dagger-is-self {out['nq'], out['herm'], out['dagger_self']} "
-                    f"differ from the model {r['nq'], r['herm'], r['dagger_self']}")
-        if not _close(out["dagger"], r["dagger"]):
-            return f"{c['gate']}{c['angles']}: .dagger.matrix differs from the model"
-        if c["gate"] != "Delay" and not r.get("unitary"):
-            return f"model self-test: {c['gate']}{c['angles']} not exactly unitary in Q(zeta8)"
-        if r["herm"] and not r.get("selfadjoint"):
-            return f"model self-test: flagged {c['gate']} not exactly self-adjoint in Q(zeta8)"
-        if c["mode"] == "symbolic" and out.get("free") != [f"t{i}" for i in range(len(c["angles"]))]:
+        msg = _cmp_gate(c, out, r)
+        if msg:
+            return msg
+        if c["mode"] == "symbolic" and c["gate"] != "Delay" and out.get("free") != [f"t{i}" for i in range(len(c["angles"]))]:
             return f"{c['gate']}: free symbols {out.get('free')}"
-    elif k == "pair":
-        if isinstance(r, str):
-            return f"model: {r}"
-        if not r["equal"]:
-            return "model self-test: G(a)G(b) != G(a+b) exactly"
-        if not _close(out["ab"], r["ab"]):
-            return f"{c['gate']} at theta_a+theta_b differs from the model at Ang.add a b"
     elif k == "zero":
-        if isinstance(r["m"], str) or not _close(out["m"], r["m"]):
-            return f"{c['gate']}(0) differs from the model"
+        return _cmp_gate(_zero_spec(c), out, r)
+    elif k == "pair":
+        return _cmp_pair(c["gate"], out, r)
     elif k == "relations":
-        bad = [kk for kk, v in r.items() if v is not True]
-        if bad:
-            return f"model self-test: relations {bad} fail exactly"
+        return _cmp_relations(r)
+    elif k == "session":
+        it = iter(resp)
+        for idx, (st, o) in enumerate(zip(c["steps"], out["steps"])):
+            msg = None
+            if st[0] == "read":
+                msg = _cmp_gate(c["objs"][st[1]], o, next(it))
+            elif st[0] == "law":
+                msg = _cmp_pair(c["objs"][st[1]]["gate"], o, next(it))
+            elif st[0] == "relations":
+                msg = _cmp_relations(next(it))
+            if msg:
+                return f"history {c['steps'][:idx + 1]}: step {idx}: {msg}"
     elif k == "malformed":
         want = r["m"] if isinstance(r["m"], str) else None
         if out["err"] != want:
@@ -354,9 +1010,83 @@ def _dev(a, b):
     return float(np.max(np.abs(a - b))) if a.size else 0.0
 
 
+def _gate_clauses(spec, out):
+    """dimension, unitarity, truth of the self-adjoint flag (+ Delay = 1, angle 0 = 1) of one observed gate"""
+    import numpy as np
+    name = spec["gate"]
+    if "exc" in out:
+        return (f"matrix-raises:{name}", f"{_label(spec)}: the matrix cannot be computed: {out['exc']}: {out.get('msg')}")
+    m = _np(out["m"])
+    d = 2 ** out["nq"]
+    if m.shape != (d, d):
+        return (f"dim:{name}", f"{_label(spec)}: matrix shape {m.shape} but num_qubits = {out['nq']}")
+    eye = np.eye(d)
+    u = max(_dev(m.conj().T @ m, eye), _dev(m @ m.conj().T, eye))
+    if not u < TOL:
+        return (f"unitary:{name}", f"{_label(spec)}: |M^H M - 1| = {u:.3g}")
+    h = _dev(m, m.conj().T)
+    if (out["herm"] or out["dagger_self"]) and not h < TOL:
+        return (f"flag-hermitian:{name}", f"{_label(spec)}: flagged self-adjoint (is_hermitian={out['herm']}, "
+                                          f"dagger is self={out['dagger_self']}) but |M - M^H| = {h:.3g}")
+    if name == "Delay" and not _dev(m, eye) < TOL:
+        return ("rel:Delay=I", f"{_label(spec)} is not the identity")
+    if spec.get("mode") == "lit" and name in ONE_PARAM_GROUP and not _dev(m, eye) < TOL:
+        return (f"group-zero:{name}", f"{name}({spec['lit']}): angle 0 is not the identity")
+    return None
+
+
+def _law_clause(name, out, what):
+    if "exc" in out:
+        return (f"matrix-raises:{name}", f"{name} {what}: the matrix cannot be computed: {out['exc']}: {out.get('msg')}")
+    a, b, ab = _np(out["a"]), _np(out["b"]), _np(out["ab"])
+    r = _dev(a @ b, ab) if a.shape == b.shape and a.shape[0] == a.shape[1] else float("inf")
+    if not r < TOL:
+        return (f"group-law:{name}", f"{name}(a)·{name}(b) differs from {name}(a+b) by {r:.3g} at {what}")
+    return None
+
+
+def _relation_clauses(out):
+    import numpy as np
+    if "exc" in out:
+        return ("matrix-raises:fixed", f"a fixed gate's matrix cannot be computed: {out['exc']}: {out.get('msg')}")
+    g = {kk: _np(v) for kk, v in out.items() if kk != "Delay"}
+    for kk, v in g.items():
+        want = 2 ** circ.BUILTIN_QUBITS[kk]
+        if v.shape != (want, want):
+            return (f"dim:{kk}", f"{kk}: matrix shape {v.shape}")
+    x, z = np.array([[0, 1], [1, 0]], dtype=complex), np.array([[1, 0], [0, -1]], dtype=complex)
+    if _dev(g["X"], x) >= TOL or _dev(g["Z"], z) >= TOL:
+        return ("rel:pauli", "X or Z is not the Pauli matrix")
+    checks = [("S*S=Z", g["S"] @ g["S"], g["Z"]), ("T*T=S", g["T"] @ g["T"], g["S"]),
+              ("SX*SX=X", g["SX"] @ g["SX"], g["X"]), ("H*Z*H=X", g["H"] @ g["Z"] @ g["H"], g["X"])]
+    for nm, u3 in (("CNOT=CX", g["X"]), ("CZ=CZ", g["Z"])):
+        blk = np.zeros((4, 4), dtype=complex)
+        blk[:2, :2] = np.eye(2)
+        blk[2:, 2:] = u3
+        checks.append((nm, g[nm.split("=")[0]], blk))
+    for nm, lhs, rhs in checks:
+        if not _dev(lhs, rhs) < TOL:
+            return (f"rel:{nm}", f"fixed relation {nm} fails by {_dev(lhs, rhs):.3g}")
+    sw = g["SWAP"]
+    for cc in range(2):
+        for dd in range(2):
+            e = np.zeros(4, dtype=complex)
+            e[2 * cc + dd] = 1
+            want = np.zeros(4, dtype=complex)
+            want[2 * dd + cc] = 1
+            if sw.shape != (4, 4) or not _dev(sw @ e, want) < TOL:
+                return ("rel:SWAP", f"SWAP|{cc}{dd}> is not |{dd}{cc}>")
+    a, b = np.array([[1, 2], [3, 4j]]), np.array([[0, 1j], [5, -1]])
+    if not _dev(sw @ np.kron(a, b) @ sw, np.kron(b, a)) < TOL:
+        return ("rel:SWAP", "SWAP (A⊗B) SWAP differs from B⊗A")
+    for dm in out["Delay"]:
+        if not _dev(_np(dm), np.eye(2)) < TOL:
+            return ("rel:Delay=I", "the delay gate is not the identity")
+    return None
+
+
 def oracle(c, out):
     """the property's own sentences evaluated with numpy on the implementation's outputs only"""
-    import numpy as np
     k = c["kind"]
     name = c.get("gate", "")
     if k in ("table", "malformed"):
@@ -364,74 +1094,54 @@ def oracle(c, out):
             return ("table-raises", f"the gate table cannot be read: {out}")
         return None
     if isinstance(out, dict) and "exc" in out:
-        return (f"matrix-raises:{name or 'fixed'}", f"{name}{c.get('angles', '')}: the matrix cannot be computed: "
-                                                     f"{out['exc']}: {out.get('msg')}")
+        return (f"matrix-raises:{name or 'fixed'}", f"{name}{c.get('angles', c.get('raw', ''))}: the matrix cannot be "
+                                                     f"computed: {out['exc']}: {out.get('msg')}")
     if k == "gate":
-        m = _np(out["m"])
-        d = 2 ** out["nq"]
-        if m.shape != (d, d):
-            return (f"dim:{name}", f"{name}: matrix shape {m.shape} but num_qubits = {out['nq']}")
-        eye = np.eye(d)
-        u = max(_dev(m.conj().T @ m, eye), _dev(m @ m.conj().T, eye))
-        if not u < TOL:
-            return (f"unitary:{name}", f"{name}{c['angles']} [{c['mode']}]: |M^H M - 1| = {u:.3g}")
-        h = _dev(m, m.conj().T)
-        if (out["herm"] or out["dagger_self"]) and not h < TOL:
-            return (f"flag-hermitian:{name}", f"{name}{c['angles']}: flagged self-adjoint (is_hermitian={out['herm']}, "
-                                              f"dagger is self={out['dagger_self']}) but |M - M^H| = {h:.3g}")
-        if name == "Delay" and not _dev(m, eye) < TOL:
-            return ("rel:Delay=I", f"Delay({c['angles'][0][0]}) is not the identity")
-    elif k == "pair":
-        a, b, ab = _np(out["a"]), _np(out["b"]), _np(out["ab"])
-        r = _dev(a @ b, ab)
-        if not r < TOL:
-            return (f"group-law:{name}", f"{name}(a)·{name}(b) differs from {name}(a+b) by {r:.3g} at a={c['a']}, b={c['b']}")
-    elif k == "zero":
-        m = _np(out["m"])
-        if not _dev(m, np.eye(m.shape[0])) < TOL:
-            return (f"group-zero:{name}", f"{name}({c['zero']} 0) is not the identity")
-    elif k == "relations":
-        g = {kk: _np(v) for kk, v in out.items() if kk != "Delay"}
-        x, z = np.array([[0, 1], [1, 0]], dtype=complex), np.array([[1, 0], [0, -1]], dtype=complex)
-        if _dev(g["X"], x) >= TOL or _dev(g["Z"], z) >= TOL:
-            return ("rel:pauli", "X or Z is not the Pauli matrix")
-        checks = [("S*S=Z", g["S"] @ g["S"], g["Z"]), ("T*T=S", g["T"] @ g["T"], g["S"]),
-                  ("SX*SX=X", g["SX"] @ g["SX"], g["X"]), ("H*Z*H=X", g["H"] @ g["Z"] @ g["H"], g["X"])]
-        for nm, u3 in (("CNOT=CX", g["X"]), ("CZ=CZ", g["Z"])):
-            blk = np.zeros((4, 4), dtype=complex)
-            blk[:2, :2] = np.eye(2)
-            blk[2:, 2:] = u3
-            checks.append((nm, g[nm.split("=")[0]], blk))
-        for nm, lhs, rhs in checks:
-            if not _dev(lhs, rhs) < TOL:
-                return (f"rel:{nm}", f"fixed relation {nm} fails by {_dev(lhs, rhs):.3g}")
-        sw = g["SWAP"]
-        for cc in range(2):
-            for dd in range(2):
-                e = np.zeros(4, dtype=complex)
-                e[2 * cc + dd] = 1
-                want = np.zeros(4, dtype=complex)
-                want[2 * dd + cc] = 1
-                if sw.shape != (4, 4) or not _dev(sw @ e, want) < TOL:
-                    return ("rel:SWAP", f"SWAP|{cc}{dd}> is not |{dd}{cc}>")
-        a, b = np.array([[1, 2], [3, 4j]]), np.array([[0, 1j], [5, -1]])
-        if not _dev(sw @ np.kron(a, b) @ sw, np.kron(b, a)) < TOL:
-            return ("rel:SWAP", "SWAP (A⊗B) SWAP differs from B⊗A")
-        for dm in out["Delay"]:
-            if not _dev(_np(dm), np.eye(2)) < TOL:
-                return ("rel:Delay=I", "the delay gate is not the identity")
+        return _gate_clauses(c, out)
+    if k == "zero":
+        return _gate_clauses(_zero_spec(c), out)
+    if k == "rawgate":
+        return _gate_clauses({"gate": name, "angles": c["raw"], "mode": "raw"}, out)
+    if k == "pair":
+        how = {kk: v for kk, v in c.items() if kk not in ("kind", "gate", "a", "b")}
+        return _law_clause(name, out, f"a={c['a']}, b={c['b']}" + (f" given as {how}, a+b formed by +" if how else ""))
+    if k == "rawpair":
+        return _law_clause(name, out, f"a={c['a']}, b={c['b']} (a+b formed by Python/sympy +)")
+    if k == "relations":
+        return _relation_clauses(out)
+    if k == "session":
+        for idx, (st, o) in enumerate(zip(c["steps"], out["steps"])):
+            res = None
+            if st[0] == "read":
+                res = _gate_clauses(c["objs"][st[1]], o)
+            elif st[0] == "law":
+                a, b, ab = (c["objs"][i] for i in st[1:4])
+                res = _law_clause(a["gate"], o, f"a={_label(a)}, b={_label(b)}, a+b={_label(ab)}")
+            elif st[0] == "relations":
+                res = _relation_clauses(o)
+            if res:
+                objs = "; ".join(f"#{i}={_label(s)}" for i, s in enumerate(c["objs"]))
+                return ("session:" + res[0], f"after the history {c['steps'][:idx]} on the objects {objs}, step {st}: "
+                                             + res[1])
     return None
 
 
 def distribution(cases, outs):
-    per_gate, modes = {}, {}
+    per_gate, modes, steps, pokes = {}, {}, {}, {}
     for c in cases:
         if c["kind"] == "gate":
             per_gate[c["gate"]] = per_gate.get(c["gate"], 0) + 1
             modes[c["mode"]] = modes.get(c["mode"], 0) + 1
+    for c, o in zip(cases, outs):
+        if c["kind"] == "session" and isinstance(o, dict) and "steps" in o:
+            for st, so in zip(c["steps"], o["steps"]):
+                steps[st[0]] = steps.get(st[0], 0) + 1
+                if st[0] == "poke":
+                    key = f"{st[3]}:{'edited' if so.get('poked') else 'refused'}"
+                    pokes[key] = pokes.get(key, 0) + 1
     errs = {}
     for c, o in zip(cases, outs):
         if c["kind"] == "malformed" and isinstance(o, dict):
             errs[str(o.get("err"))] = errs.get(str(o.get("err")), 0) + 1
     return {"cases_per_gate": per_gate, "gate_modes": modes, "malformed_outcomes": errs,
-            "gates_covered": len(per_gate)}
+            "gates_covered": len(per_gate), "session_steps": steps, "session_edits": pokes}
